@@ -259,4 +259,27 @@ B("memorylogger-write-renamed-params", ["*"], [("_output.py",
   "    def write(self, dictionary, serializer=None):\n        \"\"\"\n        Add the dictionary to list of messages.\n        \"\"\"",
   "    def write(self, dictionary, serializer=None):\n        \"\"\"\n        Add the dictionary to list of messages (thread-safe).\n        \"\"\"\n        assert isinstance(dictionary, dict)")])
 
+# --- third batch: small local must-fire variants
+M("log-timestamp-int", ["C02"], "_action.py", "        fields[TIMESTAMP_FIELD] = time.time()\n        fields[TASK_UUID_FIELD]", "        fields[TIMESTAMP_FIELD] = int(time.time())\n        fields[TASK_UUID_FIELD]", "C02.fields")
+M("log-fresh-uuid-per-message", ["C02"], "_action.py", "        fields[TASK_UUID_FIELD] = self._identification[TASK_UUID_FIELD]\n", "        fields[TASK_UUID_FIELD] = str(uuid4())\n", "C02.fields")
+M("child-appends-zero", ["C02"], "_action.py", "        new_level.append(1)", "        new_level.append(0)", "C02.levels")
+M("start-task-level-one", ["C02", "C04"], "_action.py", "        logger, str(uuid4()), TaskLevel(level=[]), action_type, _serializers", "        logger, str(uuid4()), TaskLevel(level=[1]), action_type, _serializers", "")
+M("write-send-without-logger", ["C08"], "_output.py", "        self._destinations.send(dictionary, self)", "        self._destinations.send(dictionary)", "C08.report")
+M("report-raw-message", ["C08"], "_output.py", '                    "message": _safe_unicode_dictionary(message),', '                    "message": message,', "C08.report")
+M("from-messages-prefix-two", ["C17"], "testing.py", "        levelPrefix = level[:-1]", "        levelPrefix = level[:-2]", "C17.own")
+M("assert-has-action-last", ["C17"], "testing.py", "    action = actions[0]", "    action = actions[-1]", "C17.first")
+M("log-call-name-not-qualname", ["C18"], "_action.py", "            wrapped_function.__module__, wrapped_function.__qualname__", "            wrapped_function.__module__, wrapped_function.__name__", "C18.meta")
+M("compact-indent", ["C20"], "prettyprint.py", 'dumps(value, separators=(",", ":"))', 'dumps(value, indent=1)', "C20.oneline")
+M("task-add-root-level-empty", ["C09"], "parse.py", "            if written_message.task_level.level == [1]:", "            if len(written_message.task_level.level) == 1:", "C09.dispatch")
+M("tasklevel-hash-len", ["C09", "C01"], "_action.py", "        return hash(tuple(self._level))", "        return hash(len(self._level))", "")
+M("tasklevel-parent-keeps-last", ["C09", "C01", "C06"], "_action.py", "        return TaskLevel(level=self._level[:-1])", "        return TaskLevel(level=self._level[:-2])", "")
+M("validate-skips-none-values", ["C14"], "_validation.py", "            field.validate(message[key])", "            if message[key] is not None:\n                field.validate(message[key])", "C14.shape")
+M("memorylogger-validate-stops-first", ["C14"], "_output.py",
+  "        for dictionary, serializer in zip(self.messages, self.serializers):\n            try:\n                self._validate_message(dictionary, serializer)",
+  "        for dictionary, serializer in zip(self.messages[:1], self.serializers[:1]):\n            try:\n                self._validate_message(dictionary, serializer)", "C14.json")
+M("startservice-register-before-thread", ["C19"], "logwriter.py",
+  "        self._thread = threading.Thread(target=self._reader)\n        self._thread.start()\n        addDestination(self)",
+  "        addDestination(self)\n        self._thread = threading.Thread(target=self._reader)\n        self._thread.start()", "C19.thread")
+B("threadedwriter-put-nowait", ["*"], [("logwriter.py", "        self._queue.put(data)", "        self._queue.put_nowait(data)")])
+
 VARIANTS = V
